@@ -9,6 +9,7 @@ import (
 	"strconv"
 	"strings"
 	"sync"
+	"time"
 )
 
 type Thread struct {
@@ -34,16 +35,18 @@ type Step struct {
 }
 
 type Sched struct {
-	mu       sync.Mutex
-	byGid    map[int64]*Thread
-	All      []*Thread
-	ev       chan *Thread
-	Trace    []Step
-	NStep    int
-	OnStep   func(t *Thread)         // called just before t is resumed (scheduler goroutine)
-	Skip     func(point string) bool // hooks that are not scheduling points in this harness (run through)
-	MaxSteps int                     // 0 = unbounded; Run stops (Aborted) after that many steps: some goroutine spins for ever
-	Aborted  bool
+	mu         sync.Mutex
+	byGid      map[int64]*Thread
+	All        []*Thread
+	ev         chan *Thread
+	Trace      []Step
+	NStep      int
+	OnStep     func(t *Thread)         // called just before t is resumed (scheduler goroutine)
+	Skip       func(point string) bool // hooks that are not scheduling points in this harness (run through)
+	MaxSteps   int                     // 0 = unbounded; Run stops (Aborted) after that many steps: some goroutine spins for ever
+	Aborted    bool
+	StuckAfter time.Duration // 0 = wait for ever; else Run gives up when the resumed goroutine reaches no hook in time
+	Stuck      *Thread       // the goroutine that blocked outside every hook (e.g. in a select the scheduler did not expect to block)
 }
 
 func gid() int64 {
@@ -155,7 +158,16 @@ func (s *Sched) Run(choose func(en []*Thread) *Thread) {
 		}
 		t.enabled = nil
 		t.resume <- struct{}{}
-		<-s.ev
+		if s.StuckAfter > 0 {
+			select {
+			case <-s.ev:
+			case <-time.After(s.StuckAfter):
+				s.Stuck = t
+				return
+			}
+		} else {
+			<-s.ev
+		}
 	}
 }
 
